@@ -234,6 +234,65 @@ pub fn run(ctx: &Ctx, rep: &mut Report) {
             }
         }
     }
+    // echo tails: a binary message P is decoded as an unfragmented sentence; directly afterwards
+    // (or after an inert line) a two-fragment group arrives whose final fragment carries exactly
+    // the characters and fill count of P behind another opener X. What is delivered is the message
+    // X+P - its own application identifier and every byte of X and P - not a second copy of P
+    // (a relayed message quoted inside a longer one; caches keyed by the last payload)
+    for ei in 0..ctx.budget(4_000, 60_000) {
+        if !ctx.mine(ei) {
+            continue;
+        }
+        let t1 = *r.pick(&[6u8, 8, 8]);
+        let h1 = header_bits(t1);
+        let mut m1 = content(r.usize(0, 3), h1 + 8 * r.usize(0, 24), h1, &mut r);
+        m1.put(0, 6, t1 as u64);
+        let (pchars, pfill, _) = gen::armored_view(&m1);
+        let t2 = *r.pick(&[8u8, 6, 8, 17]);
+        let nx = r.usize(header_bits(t2) / 6 + 1, header_bits(t2) / 6 + 20);
+        let mut xb = Bits::random(6 * nx, &mut r);
+        xb.put(0, 6, t2 as u64);
+        let (xchars, _, _) = gen::armored_view(&xb);
+        let mut chars2 = xchars.clone();
+        chars2.extend_from_slice(&pchars);
+        let view2 = match crate::armor::unarmor_ref(&chars2, pfill as usize) {
+            Some(v) => Bits::from_bytes(&v),
+            None => continue,
+        };
+        let id = Some((ei % 10) as u8);
+        let mut p = Parser::new();
+        let mut log: Vec<(Vec<u8>, bool)> = Vec::new();
+        let mut lines: Vec<(Vec<u8>, bool)> = vec![(nmea_ref::mk(1, 1, None, &pchars, pfill), true)];
+        if ei % 3 == 1 {
+            lines.push((b"$GPZDA,000000,01,01,2000,00,00*4C".to_vec(), true));
+        }
+        lines.push((nmea_ref::mk(2, 1, id, &xchars, 0), ei % 2 == 0));
+        lines.push((nmea_ref::mk(2, 2, id, &pchars, pfill), true));
+        let mut last = None;
+        for (l, d) in lines {
+            last = Some(p.parse(&l, d));
+            log.push((l, d));
+        }
+        rep.eval();
+        let call = match last {
+            Some(Call::Done(Outcome::Complete(sn))) => match (sn.message, sn.message_debug) {
+                (Some(m), Some(d)) => MsgCall::Ok(m, d),
+                _ => MsgCall::Err,
+            },
+            Some(Call::Panic(pi)) => MsgCall::Panic(pi),
+            _ => MsgCall::Err,
+        };
+        let v = gen::judge(&view2, &call);
+        for m in &v.mismatches {
+            if m.prop <= 1 || m.prop == 9 || (mask >> m.prop) & 1 == 1 {
+                rep.violation(PID, format!("t{}:{}:echo-tail", view2.uint(0, 6), m.key), format!("group X+P after P was decoded on its own: field {} expected {} observed {}", m.key, m.expected, m.observed), || mon::replay_history(&log, "echo-tail"));
+                break;
+            }
+        }
+        if ei % 32 == 0 {
+            rep.class(format!("echo-tail|t{}-after-t{}|{}", t2, t1, v.outcome));
+        }
+    }
     // repository binary vectors with random tails appended / removed
     for p in nmea_ref::PAYLOADS.iter().filter(|p| matches!(p[0], b'6' | b'8' | b'A')) {
         for _ in 0..ctx.budget(50, 2000) {
